@@ -1,4 +1,4 @@
-import Aurora.Lemmas.BmtConcExtra
+import Aurora.Lemmas.BmtConcOnce
 import Aurora.Generated.BmtFacts
 /-!
 # C03 (schedules) — every interleaving of the BMT section workers computes the dataflow value
@@ -139,6 +139,35 @@ theorem C03_conc_no_race (H : Bytes → Bytes) (seg d : Nat) (leafs : List Bytes
     (hb : (n, j, side, w) ∈ accesses (cfgOf H seg d leafs final) s t') : False := by
   obtain ⟨_, hp, ph, inv⟩ := cfgOf_inv hpos h0 hex
   exact no_race inv (by rw [cfgOf_pos]; exact ht) (by rw [cfgOf_pos]; exact ht') hne ha hb
+
+/-- **(d) a slot is written at most once per round.**  In any execution, once some thread has
+    written a slot (the step of `t` from `s1`), no thread — neither another one nor `t` itself — is
+    ever again about to write that slot, however the execution continues.  Together with
+    `C03_conc_no_race`/`C03_conc_read_sees_values`: each slot has at most one writer per round and
+    is read only by the thread that saw both arrivals. -/
+theorem C03_conc_write_once (H : Bytes → Bytes) (seg d : Nat) (leafs : List Bytes) (final : Bytes)
+    (hpos : leafs.length < 2 ^ d) (s0 s1 s1' s2 : St) (sched1 sched2 : List Nat)
+    (h0 : Init (cfgOf H seg d leafs final) s0)
+    (hex1 : Exec (cfgOf H seg d leafs final) s0 sched1 s1)
+    (t t' : Nat) (ht' : t' ≤ leafs.length)
+    (hs : step (cfgOf H seg d leafs final) s1 t = some s1')
+    (hex2 : Exec (cfgOf H seg d leafs final) s1' sched2 s2)
+    (n j : Nat) (side : Bool)
+    (ha : (n, j, side, true) ∈ accesses (cfgOf H seg d leafs final) s1 t)
+    (hb : (n, j, side, true) ∈ accesses (cfgOf H seg d leafs final) s2 t') : False := by
+  obtain ⟨hv, hp, ph, inv⟩ := cfgOf_inv hpos h0 hex1
+  exact write_once hv hp inv (by rw [cfgOf_pos]; exact ht') hs hex2 ha hb
+
+/-- **(c) maximal executions exist**: from every reachable state some schedule leads to a terminal
+    state (so the hypotheses of `C03_conc_result` are satisfiable for every configuration, and
+    with `C03_conc_no_deadlock` + `C03_conc_terminates` every fair scheduler reaches one). -/
+theorem C03_conc_maximal_exists (H : Bytes → Bytes) (seg d : Nat) (leafs : List Bytes) (final : Bytes)
+    (hpos : leafs.length < 2 ^ d) (s0 s : St) (sched : List Nat)
+    (h0 : Init (cfgOf H seg d leafs final) s0)
+    (hex : Exec (cfgOf H seg d leafs final) s0 sched s) :
+    ∃ sched' s', Exec (cfgOf H seg d leafs final) s sched' s' ∧ Terminal (cfgOf H seg d leafs final) s' := by
+  obtain ⟨hv, hp, ph, inv⟩ := cfgOf_inv hpos h0 hex
+  exact exists_maximal hv hp _ s ph (Nat.le_refl _) inv
 
 /-- **(d) reads come after both arrivals.**  A thread that is about to read the slots of node
     `(n, j)` (it toggled second there, or it is the final thread on the no-toggle branch) finds in
